@@ -17,19 +17,31 @@ Outside an exploration ``point()`` is a no-op: the same statements run serially 
 
 Menu       bal2 (``balance`` twice per row, vy between), agg (two aggregates, GROUP BY), insub (IN
            sub-query with a named placeholder inside), fromsub (FROM sub-query), named / pos1 / pos2
-           (placeholders), ent (the #entries table), oc (FROM OPEN ON .. CLOSE ON ..), ht (harness table).  The parsed AST of a
-           statement is SHARED by all threads that execute it; each thread passes its own parameters.
+           (placeholders), ent (the #entries table), oc (FROM OPEN ON .. CLOSE ON ..), ht (harness table).
+           The parsed AST of a statement is SHARED by all threads that execute it; each thread passes its own parameters.
 Configs    shared: one Connection for all threads; separate: one Connection per thread over the same
            entries; different: one Connection per thread over different ledgers.
 Oracle     property: "the same results as when executed one after another".  For every thread the
            observation (rows by (type, value), description names and datatypes, or the exception) must
            be one that the thread obtains in SOME serial order of the same executions started from the same
-           fresh state (all n! orders are run; for history-independent statements -- all of the menu but
-           pos2 -- this is the single result of running the thread alone).  No deadlock.  Every failing
+           fresh state (all n! orders are run; for history-independent statements -- on the current tree all
+           of the menu, on the pinned tree all but pos2 -- this is the single result of running the thread alone).  No deadlock.  Every failing
            schedule is re-executed twice from fresh state and must reproduce decisions and observations
            exactly, otherwise the run aborts with a harness error (nondeterminism is never a verdict).
+Findings   fingerprint ``balance-cache-shared`` = "only the running-balance columns of a row are wrong".  It was
+           raised by the pinned tree: the module-level ``lru_cache(maxsize=1)`` on the ``balance`` column was shared
+           by all threads and connections; schedule [0,0,1,...]: T0 evaluates ``balance`` for a row, is paused at the
+           vy() between the two references, T1 evaluates ``balance`` (evicting the single entry), T0's second
+           reference misses the cache and adds the posting again (2 USD instead of 1 USD, carried to all later
+           rows).  Fixed in /repo by 006c8af (state kept in the row context); re-introducing the cache in a scratch
+           worktree is reported again on every run.  On the pinned tree a shared AST with two positional placeholders
+           was renamed in place by the compiler (fixed since, C09): at line granularity the outcome depended on the schedule (the second execution
+           failed serially, both succeeded when both threads passed the name check before either renamed) but no
+           thread ever saw wrong rows; that history dependence belongs to C09 and is accepted by the oracle above.
+Non-vacuity on a correct tree every tuple has exactly one outcome, so each run also explores a deliberately racy
+           harness table (CanaryTable): it must be flagged when shared and not flagged when not shared.
 State      every execution starts from fresh Connections / tables and, for statements with placeholders
-           (which the compiler renames in place), from a fresh copy of the pristine AST shared by the
+           (which the compiler of the pinned tree renamed in place), from a fresh copy of the pristine AST shared by the
            threads of that execution.  ASTs without placeholders are shared by all executions and checked
            to be unmodified at the end.
 """
@@ -81,6 +93,32 @@ class SchedTable(HTable):
             yield row
 
 
+class _RacyCol(query_compile.EvalColumn):
+    """Deliberately thread-unsafe column of the canary table: read, yield, write on a counter of the table."""
+    __slots__ = ('table',)
+
+    def __init__(self, table):
+        super().__init__(int)
+        self.table = table
+
+    def __call__(self, row):
+        v = self.table.counter
+        sched.point(('canary', v))
+        self.table.counter = v + 1
+        return v
+
+
+class CanaryTable(HTable):
+    """Non-vacuity canary (harness only, no beanquery state involved): two scans of ONE table object race on its
+    counter.  The check requires that the explorer + oracle flag it in the shared configuration and do not flag it
+    when every thread has its own table; otherwise the run aborts with a harness error."""
+
+    def __init__(self):
+        super().__init__([('c', int)], [(0,), (0,)], name='canary')
+        self.columns = {'c': _RacyCol(self)}
+        self.counter = 0
+
+
 # ---------------------------------------------------------------------------------------------
 # ledgers, statements
 
@@ -124,6 +162,8 @@ MENU = {
     'ht': ("SELECT x, vy(1) AS y, s FROM #ht WHERE x > 0", None, ()),
 }
 IDS = list(MENU)
+CANARY = ('canary', 'canary')
+MENU['canary'] = ("SELECT c FROM #canary", None, ())      # not part of IDS: explored separately, see run()
 CONFIGS = ['shared', 'separate', 'different']
 # Thorough tier, 2 preemptions at line granularity for the pairs touching state shared between executions, with
 # the line points restricted to the modules that hold that state (a full-module product would be ~10^6 schedules):
@@ -182,6 +222,7 @@ def new_conn(e, ledger):
     entries, errors, options = e['ledgers'][ledger]
     conn = beanquery.connect('beancount:', entries=entries, errors=errors, options=options)
     conn.tables['ht'] = SchedTable([('x', int), ('s', str)], HT_ROWS[ledger], name='ht')
+    conn.tables['canary'] = CanaryTable()
     return conn
 
 
@@ -554,6 +595,21 @@ def replay(case):
     return vs
 
 
+def canary(ctx):
+    """The explorer and the oracle must flag the deliberately racy harness table when it is shared, and only then."""
+    res = {}
+    for config in ('shared', 'separate'):
+        acc = Acc()
+        st = run_item(Item('yield', config, CANARY, None, ctx.seed), acc)
+        outs = [len(v) for k, v in acc.sets.items() if isinstance(k, tuple) and k[0] == 'outcomes']
+        res[config] = {'schedules': st.schedules, 'violating_schedules': acc.n['violating_schedules'], 'distinct_outcomes': sum(outs)}
+    if not res['shared']['violating_schedules'] or res['shared']['distinct_outcomes'] < 2:
+        raise sched.HarnessError(f'canary: the race on a shared harness table was not detected: {res}')
+    if res['separate']['violating_schedules']:
+        raise sched.HarnessError(f'canary: a violation was flagged although nothing is shared: {res}')
+    return res
+
+
 def free_running_smoke(ctx, rounds=3):
     """Unscheduled real threads released together (point() is a no-op for them).  Decides nothing: with
     the GIL's 5 ms switch interval a sub-millisecond query is almost never preempted, which is exactly why the
@@ -588,15 +644,23 @@ def free_running_smoke(ctx, rounds=3):
 
 
 def run(ctx):
+    import threading
+    import time
+    t0 = time.time()
     facts = sched.selftest()
+    canary_result = canary(ctx)
+    t1 = time.time()
     env(ctx.seed)
     specs, pts, lpts = plan(ctx)
-    import threading
+    t2 = time.time()
     if threading.active_count() != 1:
         raise sched.HarnessError('threads alive before forking the workers')
     total = run_shards(shard_fn, ctx.jobs, specs, nshards=max(1, min(len(specs), ctx.jobs * 8)))
+    t3 = time.time()
 
     smoke = free_running_smoke(ctx)
+    phases = {'explorer_selftest_and_canary': round(t1 - t0, 1), 'parse_and_plan': round(t2 - t1, 1), 'exploration': round(t3 - t2, 1),
+              'free_running_smoke': round(time.time() - t3, 1)}
 
     violations = []
     best = {}
@@ -668,6 +732,8 @@ def run(ctx):
         'deadlocks': total.n['deadlocks'],
         'history_dependent_tuples': sorted('%s:%s' % (c, '+'.join(i)) for c, i in total.sets.get('history_dependent', ())),
         'free_running_smoke_test_decides_nothing': smoke,
+        'phase_wall_s': phases,
+        'non_vacuity_canary': canary_result,
         'explorer_selftest': {k: list(v) if isinstance(v, tuple) else v for k, v in facts.items()},
         'configurations': CONFIGS,
         'samples': samples,
